@@ -213,7 +213,12 @@ class Model:
         return '127.0.0.1' if self.local else '1.2.3.4'
 
     def new(self):
-        if self.variant == 'stock':
+        if self.variant == 'maildir':
+            # the maildir backend: users, passwords and roles live in
+            # passwd/shadow/group style files
+            from ..worlds import MaildirWorld
+            w = MaildirWorld(layout='++', users=USERS, jail_cheap=True)
+        elif self.variant == 'stock':
             w = DictWorld(users=USERS, tls_enabled=self.tls)
         else:
             from pysasl.hashing import Cleartext
@@ -226,10 +231,26 @@ class Model:
                 'tls_auth': property(
                     lambda self_: SASLAuth.named([b'CRAM-MD5']))})
         from pymap.user import UserMetadata
-        w.backend.login.users_dict['nopw'] = UserMetadata(
-            w.config, 'nopw', password=None, roles=frozenset())
         ctx = Ctx(w)
         ctx.extra['m'] = AuthModel(self.tls, self.local, self.variant)
+        if self.variant == 'maildir':
+            from pymap.backend.maildir import Identity
+            login = w.backend.login
+            ident = Identity(w.config, login.tokens, 'nopw', None, {'admin'})
+            w.loop.run_coro(ident.set(UserMetadata(
+                w.config, 'nopw', password=None, roles=frozenset())),
+                horizon=30.0)
+            # markers: every user creates a mailbox named after it
+            for u, (pw, _) in USERS.items():
+                c = ctx.connect(peer='127.0.0.1')
+                assert ctx.do(c, b'LOGIN %s %s' % (u.encode(),
+                                                   pw.encode())).cond == 'OK'
+                assert ctx.do(c, b'CREATE mark-' + u.encode()).cond == 'OK'
+                ctx.do(c, b'LOGOUT')
+            self.connect(ctx)
+            return ctx
+        w.backend.login.users_dict['nopw'] = UserMetadata(
+            w.config, 'nopw', password=None, roles=frozenset())
         # markers: every user's store gets a mailbox / script named after it
         from pymap.backend.dict.mailbox import MailboxSet
         from pymap.backend.dict.filter import FilterSet
@@ -343,6 +364,17 @@ class Model:
         if kind == 'pwchange':
             from pymap.user import UserMetadata  # noqa: F401
             login = ctx.world.backend.login
+            if self.variant == 'maildir':
+                from pymap.backend.maildir import Identity
+                cfg = ctx.world.config
+                ident = Identity(cfg, login.tokens, 'alice', None, {'admin'})
+                h = cfg.hash_context.hash(cfg.password_prep('pw-new'))
+                ctx.world.loop.run_coro(ident.set(UserMetadata(
+                    cfg, 'alice', password=h, roles=frozenset())),
+                    horizon=30.0)
+                m.pw['alice'] = b'pw-new'
+                m.changed = True
+                return out
             cur = login.users_dict['alice']
             new_hash = ctx.world.config.hash_context.hash(
                 ctx.world.config.password_prep('pw-new'))
@@ -460,7 +492,8 @@ CONFIGS = [('imap', False, False), ('imap', True, False), ('imap', True, True),
            ('sieve', False, False), ('sieve', True, False),
            ('imap', False, True),
            ('imap', False, False, 'cleartext'), ('imap', False, False, 'cram'),
-           ('imap', True, False, 'cram'), ('sieve', False, False, 'cleartext')]
+           ('imap', True, False, 'cram'), ('sieve', False, False, 'cleartext'),
+           ('imap', False, False, 'maildir')]
 
 
 def run(*, tier, seed, jobs, progress, opts):
@@ -470,11 +503,14 @@ def run(*, tier, seed, jobs, progress, opts):
     cov = {'configs': [], 'states': 0, 'transitions': 0,
            'traces_validated_against_impl': 0, 'samples': []}
     auth_ok_states = 0
+    from ..worlds import scratch_parent
     for cfg in CONFIGS:
         proto, tls, local = cfg[:3]
         variant = cfg[3] if len(cfg) > 3 else 'stock'
         m = Model(proto, tls, local, variant)
-        res = bfs(m, depth, jobs=jobs, seed=seed, progress=progress)
+        with scratch_parent():
+            res = bfs(m, depth if variant != 'maildir' else min(depth, 3),
+                      jobs=jobs, seed=seed, progress=progress)
         if res.errors:
             print(res.errors[0])
             raise RuntimeError('harness error during exploration')
@@ -506,7 +542,9 @@ def replay(rec):
     r = rec['replay']
     p = r['params']
     m = Model(p['proto'], p['tls'], p['local'], p.get('variant', 'stock'))
-    viols = run_history(m, r['history'])
+    from ..worlds import scratch_parent
+    with scratch_parent():
+        viols = run_history(m, r['history'])
     for v in viols:
         print('VIOLATION-REPLAYED', v['rule'], v['site'], v['msg'])
     return 1 if viols else 0
